@@ -45,14 +45,16 @@ def topology(draw, nparts, max_pods=3, max_racks=3, max_servers=3):
 
 
 @st.composite
-def affinities(draw, limits=True):
+def affinities(draw, limits=True, dense=False):
     affs = []
     for idx in range(draw(st.integers(1, 3))):
         lim = {}
         if limits:
             for level in LEVELS:
-                if draw(st.integers(0, 3)) == 0:
-                    lim[level] = draw(st.integers(1, 3))
+                # dense: limits on half of the levels and mostly tight ones
+                if draw(st.integers(0, 1 if dense else 3)) == 0:
+                    lim[level] = draw(st.sampled_from([1, 1, 2, 3])) \
+                        if dense else draw(st.integers(1, 3))
         affs.append({'name': 'aff%d' % idx, 'limits': lim})
     return affs
 
@@ -260,7 +262,8 @@ def cell_case(draw, profile=None):
                               max_pods=profile.get('max_pods', 2),
                               max_racks=profile.get('max_racks', 2),
                               max_servers=profile.get('max_servers', 3))),
-        'affs': draw(affinities(limits=profile.get('limits', True))),
+        'affs': draw(affinities(limits=profile.get('limits', True),
+                                dense=profile.get('dense_limits', False))),
         'allocs': draw(allocations(nparts, rich=profile.get('rich_allocs',
                                                             False))),
         'groups': [draw(st.integers(0, 4)) for _ in range(ngroups)],
@@ -528,7 +531,8 @@ def master_case(draw, profile=None):
         'order': draw(st.integers(0, 3)),
         'nparts': nparts,
         'topo': pods,
-        'affs': draw(affinities(limits=profile.get('limits', True))),
+        'affs': draw(affinities(limits=profile.get('limits', True),
+                                dense=profile.get('dense_limits', False))),
         'allocs': draw(e2_allocs(nparts)),
         'groups': [draw(st.integers(0, 4)) for _ in range(ngroups)],
     }
